@@ -33,8 +33,8 @@ type guardFrame struct {
 	hinfo   *types.Info
 	hargs   map[types.Object]ast.Expr // named handler: parameter -> argument of the defer statement
 	records string                    // what the handler records into
-	prefix  []ast.Stmt // statements before the defer: they run unprotected
-	why     string     // "" if intact
+	prefix  []ast.Stmt                // statements before the defer: they run unprotected
+	why     string                    // "" if intact
 }
 
 func errorLike(t types.Type) bool {
@@ -595,6 +595,7 @@ func runC04(p *core.Program, r *core.Report) {
 	reflectPreconditionRule(p, r, regionNames)
 	staleLengthRule(p, r, regionNames)
 	makeLengthRule(p, r, regionNames)
+	subtractiveIndexRule(p, r, regionNames)
 	r.Analysed["K1_explicit_panics_in_U"] = nK1
 	r.Analysed["K2_hard_assertions_in_U"] = nK2
 
